@@ -14,7 +14,7 @@ THEOREMS = [
     # the re-export move (Registry.reparent) over any state satisfying the C02 invariant
     "Registry.reparent_once", "Registry.no_key_under_old_name", "Registry.reparent_leaves_alias",
     "Names.old_name_finds", "Names.old_member_name_finds", "Names.new_name_resolves",
-    "Names.consumer_of_definer_counterexample",
+    "Names.consumer_of_definer_counterexample", "Names.old_import_resolves",
     # the lemmas they rest on
     # (Registry.reparent_spec itself is declared and audited in PdProps.C02)
     "Registry.reparent_free", "Names.expandLoop_descend", "Names.expandLoop_step",
@@ -235,6 +235,24 @@ def check_one(ctx: Ctx, units: List[Unit], meta, order: List[int], reqs, impls, 
                     if t is not obj:
                         via = "definer-import" if ident == "XD" else ("reexporter-import" if ident == "XR" else "qualified-name")
                         ctx.fail("xref-via-%s:unresolved" % via, payload, f"docstring reference {ident!r} in {k!r} -> {t!r}")
+    # an annotation that names the object through either import links to its one page
+    for c in (meta["consumers"] if moved_expected else []):
+        attr = system.allobjects.get(c["module"] + ".v_" + c["cname"])
+        if attr is None:
+            continue
+        from pydoctor import epydoc2stan
+        from pydoctor.stanutils import flatten
+        try:
+            with contextlib.redirect_stdout(io.StringIO()):
+                stan = epydoc2stan.type2stan(attr)
+            html = flatten(stan) if stan is not None else ""
+        except Exception as e:
+            html = "ERR:" + type(e).__name__
+        ln = c["locals"][-1]
+        want = obj.url
+        if ('href="%s"' % want) not in html:
+            via = "definer-import" if ln == "XD" else "reexporter-import"
+            ctx.fail("annotation-via-%s:unlinked" % via, payload, f"annotation {ln!r} of {attr.fullName()} renders as {html[:200]!r}, expected a link to {want}")
     if moved_expected:
         try:
             fo = system.find_object(old_name)
